@@ -583,9 +583,12 @@ def _fresh(op, n, style=0):
 
 CTRL_CONFIGS_QUICK = [  # (control values, n work wires, work wire type)
     ([1, 1], 0, None), ([0, 1], 0, None), ([1, 0, 1], 0, None), ([0], 0, None), ([1, 1, 1], 1, "zeroed"), ([1, 0, 1, 1], 2, "borrowed"),
+    # a zero control value at EVERY position (first / middle / last) for 2 and 3 controls: rules that treat one control wire
+    # specially (e.g. the wire that carries the phase of a controlled GlobalPhase) are only exposed by a zero on that wire
+    ([1, 0], 0, None), ([0, 0], 0, None), ([1, 1, 0], 0, None), ([0, 1, 1], 0, None),
 ]
 CTRL_CONFIGS_THOROUGH = CTRL_CONFIGS_QUICK + [
-    ([1], 0, None), ([0, 0], 0, None), ([1, 1, 1], 0, None), ([0, 0, 0], 0, None), ([1, 1], 1, "zeroed"), ([1, 1], 1, "borrowed"),
+    ([1], 0, None), ([1, 1, 1], 0, None), ([0, 0, 0], 0, None), ([1, 1], 1, "zeroed"), ([1, 1], 1, "borrowed"),
     ([0, 1, 1], 1, "borrowed"), ([1, 1, 0], 2, "zeroed"), ([1, 1, 1, 1], 0, None), ([1, 1, 0, 1], 1, "zeroed"), ([1, 1, 1, 1], 2, "zeroed"),
     ([1, 1, 1, 1, 1], 0, None), ([1, 0, 1, 1, 1], 3, "zeroed"), ([1, 1, 1, 0, 1], 3, "borrowed"),
 ]
